@@ -220,7 +220,10 @@ pub fn rt_event(rng: &mut Rng, v: &Val, pty0: &str, fw: &str, fr: &str, with_per
             let ptys: &[&str] = match pty0 { "dt" => &["dt", "ndt", "date", "time"], "ndt" => &["ndt", "date", "time"], "date" => &["date"], _ => &["time"] };
             for pty in ptys {
                 let (r, rem) = parse_both(pty, t, fr);
-                parsed.push(json!({"pty": pty, "r": r, "rem": rem, "owned": parse_owned(pty, t, fr)}));
+                // parse_and_remainder hands back exactly what follows the text the format consumed ('|' can continue no item)
+                let tail = format!("{}|tail", t);
+                let (strict_tail, rem2) = parse_both(pty, &tail, fr);
+                parsed.push(json!({"pty": pty, "r": r, "rem": rem, "owned": parse_owned(pty, t, fr), "rem2": rem2, "trailing_refused": strict_tail.get("err").is_some()}));
             }
             if with_perts {
                 for (m, w) in [(mode, ""), ("asis", ws.as_str()), (mode, ws.as_str())] {
